@@ -374,9 +374,13 @@ func (r *c09Run) build(idx int, st StageSpec) func(ro.Observable[int]) ro.Observ
 		ops := []func(ro.Observable[float64]) ro.Observable[float64]{
 			ro.Floor(), ro.Ceil(), ro.FloorWithPrecision(2), ro.CeilWithPrecision(-2), ro.FloorWithPrecision(-400), ro.CeilWithPrecision(-400),
 			ro.FloorWithPrecision(-309), ro.CeilWithPrecision(-9000), ro.FloorWithPrecision(400), ro.Round(), ro.Trunc(), ro.Abs(),
+			ro.CeilWithPrecision(-1), ro.FloorWithPrecision(-1), ro.CeilWithPrecision(-300), ro.FloorWithPrecision(-300),
 		}
 		op := ops[pi(st.P, 0, 0)%len(ops)]
-		in := ro.Map(func(x int) float64 { return float64(x-12) * 1.25 })
+		// ordinary magnitudes of both signs, and magnitudes at the ends of the float range (scaling them
+		// under- or overflows: the operators have separate branches for that)
+		table := []float64{-2.5, -1e-30, -math.SmallestNonzeroFloat64, 0, math.SmallestNonzeroFloat64, 1e-30, 1.25, 3.75, 1e300, -1e300}
+		in := ro.Map(func(x int) float64 { return table[int(uint64(x)%uint64(len(table)))] })
 		out := ro.Map(func(f float64) int {
 			switch {
 			case math.IsInf(f, 1):
@@ -494,7 +498,7 @@ func init() {
 					name := c09LocalNames[g.Intn(len(c09LocalNames))]
 					sc.Stages = append(sc.Stages, StageSpec{Op: name, P: []int{g.Intn(nv + 2)}})
 					if name == "Rounding" {
-						sc.Stages[len(sc.Stages)-1].P = []int{g.Intn(12)}
+						sc.Stages[len(sc.Stages)-1].P = []int{g.Intn(16)}
 					}
 				default:
 					genChain(g, sc, 1, nv, g.Pick("sync", "async"), c09StageOK)
